@@ -476,5 +476,26 @@ def r08_13(ctx):
         raise AnalysisError(f"only {n} dependency walks found in resolve_vis / resolve_defaults")
 
 
+def r08_14(ctx):
+    """R08.14 the defaults policy belongs to the instance that was created under it: `Kconfig.defaults_policy` is a slot assigned in
+    __init__ from KCONFIG_DEFAULTS_POLICY, not a property that reads it from an object shared between instances (KconfigReport is a
+    process-wide singleton: a second Kconfig created under another policy would change what the first does with stored defaults)."""
+    repo = ctx.repo
+    init = repo.func(f"{CORE}:Kconfig.__init__")
+    ctx.analysed(init.qual)
+    construct = "Kconfig.defaults_policy/instance state set in __init__"
+    stores = [n for n in ast.walk(init.node) if isinstance(n, ast.Assign) and any(ast.unparse(t) == "self.defaults_policy" for t in n.targets)]
+    prop = repo.has_func(f"{CORE}:Kconfig.defaults_policy")
+    slots = repo.slots(f"{CORE}:Kconfig")
+    if prop:
+        p = repo.func(f"{CORE}:Kconfig.defaults_policy")
+        ctx.bad(construct, f"defaults_policy is computed (`{ast.unparse(p.node.body[-1])[:60]}`) instead of stored: the policy of one instance follows whatever "
+                "another instance or a shared object was given", p.loc())
+    elif not stores or (slots and "defaults_policy" not in slots):
+        ctx.bad(construct, "__init__ no longer stores self.defaults_policy", init.loc())
+    else:
+        ctx.ok(construct, init.loc(stores[0]), stores=len(stores))
+
+
 def rules():
-    return [("R08.13", r08_13, 4), ("R08.12", r08_12, 1), ("R08.11", r08_11, 3), ("R08.10", r08_10, 3), ("R08.9", r08_9, 5), ("R08.1", r08_1, 2), ("R08.2", r08_2, 2), ("R08.3", r08_3, 8), ("R08.5", r08_5, 3), ("R08.6", r08_6, 8), ("R08.7", r08_7, 6), ("R08.8", r08_8, 1)]
+    return [("R08.14", r08_14, 1), ("R08.13", r08_13, 4), ("R08.12", r08_12, 1), ("R08.11", r08_11, 3), ("R08.10", r08_10, 3), ("R08.9", r08_9, 5), ("R08.1", r08_1, 2), ("R08.2", r08_2, 2), ("R08.3", r08_3, 8), ("R08.5", r08_5, 3), ("R08.6", r08_6, 8), ("R08.7", r08_7, 6), ("R08.8", r08_8, 1)]
